@@ -148,6 +148,10 @@ def run_program(seed, mode, counters, program=None, record=None):
     vio = []
     trace = []
     names = sorted(files)
+    if not names:
+        # the library refused every file of this case (nothing to read): a trivial case
+        s.close()
+        return vio, []
     last_foreign = {}
     with contextlib.ExitStack() as stack:
         twins = []
